@@ -266,3 +266,8 @@ Fixpoint trunc_bound (h : hwax) (dtms : Q) (bs : list branch) (taps : list nat) 
   end.
 Fixpoint weight_sum (h : hwax) (bs : list branch) : Q :=
   match bs with [] => 0 | b :: bs' => Qabs (hw_a h (b_weight b)) + weight_sum h bs' end.
+
+(* ---------------------------------------------------------------------------------------------- *)
+(* Round 4: Sequence.mod_grad_axis(axis, c) / flip_grad_axis seen on the waveform of the axis: every
+   amplitude of the corner list is multiplied by c, the corner times are unchanged. *)
+Definition scale_pts (c : Q) (pts : list (Q * Q)) : list (Q * Q) := map (fun p => (fst p, c * snd p)) pts.
